@@ -47,7 +47,7 @@ var lockStates = []string{"sync.RWMutex.Lock", "sync.RWMutex.RLock", "sync.Mutex
 // pieces with fully observable inputs/outputs (usable by the linearizability oracle).
 var (
 	linKinds = []string{"get", "getByUUID", "exist", "count", "all", "assignAll", "assignIndex", "searchLen", "insert", "update", "delete", "many", "schema", "control"}
-	allKinds = append(append([]string{}, linKinds...), "searchCollect", "searchChain", "searchOne", "searchDelete", "deleteAll", "flushAll", "flushAllCommit", "commit", "createAgain", "bulk", "iterCount", "repair", "otherCount", "otherInsert", "otherAll", "otherSearch", "asyncOff", "asyncOn", "cacheToggle")
+	allKinds = append(append([]string{}, linKinds...), "searchCollect", "searchChain", "searchOne", "searchDelete", "deleteAll", "flushAll", "flushAllCommit", "commit", "createAgain", "bulk", "iterCount", "repair", "otherCount", "otherInsert", "otherAll", "otherSearch", "asyncOff", "asyncOn", "cacheToggle", "o2create", "o2insert")
 )
 
 func (g *G) COp(kinds []string) COp {
@@ -231,11 +231,20 @@ func runWorker(db *sod.DB, e *Env, w int, ops []COp, known []string, base map[st
 				if op.Kind == "many" {
 					n, err = db.InsertOrUpdateMany(args...)
 				} else {
-					ch := make(chan sod.Object, len(args))
-					for _, a := range args {
-						ch <- a
-					}
-					close(ch)
+					// the producer feeds an unbuffered channel and reads from the same handle between
+					// two sends, as a program converting one collection into another would
+					ch := make(chan sod.Object)
+					go func() {
+						defer close(ch)
+						for i, a := range args {
+							ch <- a
+							if i%2 == 0 {
+								db.Count(&Doc{})
+							} else {
+								db.GetByUUID(&Doc{}, pickID(i))
+							}
+						}
+					}()
 					n, err = db.InsertOrUpdateBulk(ch, 2)
 				}
 				ev.Class, ev.N = classify(err), n
@@ -294,6 +303,11 @@ func runWorker(db *sod.DB, e *Env, w int, ops []COp, known []string, base map[st
 			call(func() { ev.Class = classify(db.InsertOrUpdate(&Other{K: int64(op.Ref), V: "v"})) })
 		case "otherSearch":
 			call(func() { _, err := db.Search(&Other{}, "K", ">=", int64(0)).Collect(); ev.Class = classify(err) })
+		case "o2create":
+			// the first Create of a collection, possibly raced by other workers
+			call(func() { ev.Class = classify(db.Create(&Other2{}, sod.DefaultSchema)) })
+		case "o2insert":
+			call(func() { ev.Class = classify(db.InsertOrUpdate(&Other2{K: int64(w*100 + op.Ref), V: "v"})) })
 		}
 	}
 }
